@@ -171,6 +171,7 @@ struct Swarm {
     misc: bool,
     big: bool,
     crlf: bool,
+    symlinks: bool,
 }
 
 struct LogicalFile {
@@ -1237,6 +1238,7 @@ fn draw_swarm(r: &mut Rng, profile: Profile) -> Swarm {
         misc: r.chance(1, 2),
         big: r.chance(1, 10),
         crlf: r.chance(1, 8),
+        symlinks: r.chance(1, 5),
     }
 }
 
@@ -1569,6 +1571,80 @@ pub fn gen_pristine(r: &mut Rng, profile: Profile, root: &str, cycle: bool) -> G
             Entry::StringSearch { text: main.s.clone() }
         };
     }
+    // ---- symbolic links (a fifth of the worlds)
+    if sw.symlinks {
+        // (A) a link to one of the search directories, put on the list / into QASM3_PATH in front
+        // of, behind, or instead of the directory itself: files are then found under the link's
+        // name while their canonical path is under the directory's
+        let target_dir = r.pick(&chosen).clone();
+        let link = format!("{}/dl", root);
+        let base = target_dir.rsplit('/').next().unwrap_or("d1").to_string();
+        let target = match r.below(3) {
+            0 => base.clone(),                 // relative to the directory that holds the link
+            1 => format!("{}/", target_dir),   // absolute, with a trailing slash
+            _ => target_dir.clone(),
+        };
+        world.put_link(&link, &target);
+        let spelled = match r.below(4) {
+            0 if cwd == root => "dl".to_string(),
+            1 => format!("{}/", link),
+            2 => format!("{}/sub/..", link),
+            _ => link.clone(),
+        };
+        let place = |r: &mut Rng, v: &mut Vec<String>| {
+            let same: Vec<usize> = (0..v.len()).filter(|i| v[*i].contains(&base)).collect();
+            if !same.is_empty() && r.chance(1, 3) {
+                let i = *r.pick(&same);
+                v[i] = spelled.clone();
+            } else {
+                let at = r.below(v.len() + 1);
+                v.insert(at, spelled.clone());
+            }
+        };
+        if let Some(l) = world.list.as_mut() {
+            if !l.is_empty() {
+                place(r, l);
+            }
+        } else if let Some(e) = world.env.clone() {
+            if !e.is_empty() {
+                let mut v: Vec<String> = e.split(':').map(|x| x.to_string()).collect();
+                place(r, &mut v);
+                world.env = Some(v.join(":"));
+            }
+        }
+        // (B) some copies live elsewhere and are reached through a link of the expected name
+        let copies: Vec<String> = world
+            .nodes
+            .iter()
+            .filter(|(p, n)| matches!(n, Node::File(_)) && p.ends_with(".inc") && !p.ends_with("/stdgates.inc"))
+            .map(|(p, _)| p.clone())
+            .collect();
+        for (k, p) in copies.iter().enumerate() {
+            if !r.chance(1, 4) {
+                continue;
+            }
+            let store = format!("{}/store/s{}.inc", root, k);
+            let node = world.nodes.remove(p).unwrap();
+            world.mkdir_p(&format!("{}/store", root));
+            world.nodes.insert(store.clone(), node);
+            let target = if r.chance(1, 2) {
+                store.clone()
+            } else {
+                // relative to the directory that holds the link
+                let dir = &p[..p.rfind('/').unwrap_or(0)];
+                let ups = dir[root.len()..].split('/').filter(|x| !x.is_empty()).count();
+                format!("{}store/s{}.inc", "../".repeat(ups), k)
+            };
+            world.nodes.insert(p.clone(), Node::Link(target));
+            if let Some(m) = world.meta.remove(p) {
+                world.meta.insert(store.clone(), m);
+            }
+            if let Some(l) = lexemes.remove(p) {
+                lexemes.insert(store, l);
+            }
+        }
+    }
+
     // ---- budget derived from the world
     let ndirs_cfg = match (&world.list, &world.env) {
         (Some(l), _) => l.len(),
@@ -1618,7 +1694,7 @@ fn static_damage(r: &mut Rng, g: &mut Generated, profile: Profile) -> Option<&'s
         Profile::Gating => 12,
         Profile::Spans => 9,
     };
-    let kinds: [(&'static str, u32); 11] = [
+    let kinds: [(&'static str, u32); 13] = [
         ("torn", content_weight),
         ("torn_lexeme", content_weight),
         ("zero_tail", content_weight / 2),
@@ -1630,6 +1706,8 @@ fn static_damage(r: &mut Rng, g: &mut Generated, profile: Profile) -> Option<&'s
         ("perm", if is_main { 0 } else { 3 }),
         ("eio", if is_main { 0 } else { 3 }),
         ("garbage", content_weight / 2),
+        ("dangling_link", if is_main { 0 } else { 1 }),
+        ("link_loop", if is_main { 0 } else { 1 }),
     ];
     let k = kinds[r.weighted(&kinds.iter().map(|k| k.1).collect::<Vec<_>>())].0;
     let (mut lex, mut exp_tears) = g.lexemes.get(&path).cloned().unwrap_or_default();
@@ -1870,6 +1948,27 @@ fn static_damage(r: &mut Rng, g: &mut Generated, profile: Profile) -> Option<&'s
             w.meta.remove(&path);
             w.damage.push(Damage { path, kind: "bad_utf8".into(), at, g3: None });
             Some("bad_utf8")
+        }
+        "dangling_link" => {
+            // the name is a symbolic link to nothing: the probe says no, a read says ENOENT
+            w.nodes.insert(path.clone(), Node::Link(format!("gone-{}", r.below(10))));
+            w.meta.remove(&path);
+            w.damage.push(Damage { path, kind: "dangling_link".into(), at: 0, g3: None });
+            Some("dangling_link")
+        }
+        "link_loop" => {
+            // the name is a symbolic link to itself (directly, or through a second link): ELOOP
+            let name = path.rsplit('/').next().unwrap().to_string();
+            if r.chance(1, 2) {
+                w.nodes.insert(path.clone(), Node::Link(name));
+            } else {
+                let other = format!("{}.lnk", path);
+                w.nodes.insert(other, Node::Link(name.clone()));
+                w.nodes.insert(path.clone(), Node::Link(format!("{}.lnk", name)));
+            }
+            w.meta.remove(&path);
+            w.damage.push(Damage { path, kind: "link_loop".into(), at: 0, g3: None });
+            Some("link_loop")
         }
         "is_dir" => {
             w.nodes.insert(path.clone(), Node::Dir);
